@@ -14,11 +14,11 @@ def rust_scalar_ty(t):
     if t['k'] == 'bool':
         return 'bool'
     if t['k'] == 'u':
-        return 'u%d' % t['n']
+        return t.get('path', '') + 'u%d' % t['n']         # path: `arbitrary_int::` written out (the macro looks at the last segment)
     if t['k'] == 'i':
         return 'i%d' % t['n']
     if t['k'] == 'custom':
-        return 'Option<%s>' % t['name'] if t.get('opt') else t['name']
+        return '%sOption<%s>' % (t.get('opt_path', ''), t['name']) if t.get('opt') else t['name']
     if t['k'] == 'text':       # malformed / unsupported spellings, printed verbatim
         return t['text']
     raise ValueError(t)
